@@ -233,11 +233,18 @@ func typesCheck(wz bool, src []byte) string {
 	pkgpath, mainName, imp := token.K_pkg_main, token.K_main, fmt.Sprintf(`import "%s" => _`, token.K_pkg_runtime)
 	impName := "_$main$runtime.wa"
 	if wz {
-		f, err = w2parser.ParseFile(nil, fset, "x.wz", src, w2parser.AllErrors|w2parser.ParseComments)
 		pkgpath, mainName, imp = token.K_pkg_主包, token.K_主控, fmt.Sprintf(`引入 "%s" => _`, token.K_pkg_丹田)
 		impName = "_$main$runtime.wz"
-	} else {
-		f, err = parser.ParseFile(nil, fset, "x.wa", src, parser.AllErrors|parser.ParseComments)
+	}
+	// a panic of the parser is the parser entry points' finding, not the type checker's
+	if p := mc.Recover(func() {
+		if wz {
+			f, err = w2parser.ParseFile(nil, fset, "x.wz", src, w2parser.AllErrors|w2parser.ParseComments)
+		} else {
+			f, err = parser.ParseFile(nil, fset, "x.wa", src, parser.AllErrors|parser.ParseComments)
+		}
+	}); p != "" {
+		return "parse-panic"
 	}
 	if err != nil {
 		return "parse-error"
